@@ -4,6 +4,7 @@ import (
 	"fmt"
 	"go/token"
 	"go/types"
+	"os"
 	"sort"
 	"strings"
 
@@ -25,6 +26,8 @@ func init() {
 			{ID: "C09.R2", Min: 2, Doc: "ack after delivery: call sites of moveForward lie in the body of the select state that sends on readChan; fields stored by readOne ⊆ {nextReadPos, nextReadFileNum, readFile, reader}", Run: c09r2},
 			{ID: "C09.R3", Min: 3, Doc: "close order: path enumeration of Close (exit then sync), shape of exit, exit-flag test in Put/Empty before the channel send", Run: c09r3},
 			{ID: "C09.R4", Min: 2, Doc: "depth accounting: path enumeration of writeOne (AddInt64(+1) iff the file write succeeded) and moveForward (AddInt64(-1) once)", Run: c09r4},
+			{ID: "C09.R6", Min: 4, Doc: "handle follows segment number: on every path of a function that increments nextReadFileNum (writeFileNum), the cached readFile (writeFile) handle is nil when the function returns — otherwise the next read (write) continues on the old segment's handle while the cursor says new segment, position 0", Run: c09r6},
+			{ID: "C09.R7", Min: 3, Doc: "segment and metadata files are never truncated on open: the flag argument of every os.OpenFile in package nsqd is a constant (on every path) without O_TRUNC / O_APPEND / O_EXCL — the writer resumes inside an existing segment at the persisted position after a restart", Run: c09r7},
 			{ID: "C09.R5", Min: 3, Doc: "sibling agreement: normalised roll conditions of readOne/writeOne; length header type and byte order; record size 4+len", Run: c09r5},
 		},
 	})
@@ -471,4 +474,187 @@ func c09r5(c *Check) {
 		return ok
 	}
 	c.Judge(four(ro) && four(wo), "nsqd record size is 4 + payload length on both sides", c.AtFn(ro), "positions advance by header + payload", "reader and writer no longer advance their positions by 4 + length")
+}
+
+func c09r6(c *Check) {
+	pairs := map[string]string{"nextReadFileNum": "readFile", "writeFileNum": "writeFile"}
+	pkg := c.P.Pkg("nsqd")
+	n := 0
+	for _, fn := range c.P.Funcs {
+		if fnPkg(fn) != pkg.Types {
+			continue
+		}
+		// which counters does fn increment?
+		incs := map[string]ssa.Instruction{}
+		allInstrs(fn, func(in ssa.Instruction) {
+			if num, ok := incStore(in); ok && pairs[num] != "" {
+				incs[num] = in
+			}
+		})
+		for num, at := range incs {
+			n++
+			handle := pairs[num]
+			hF := dqField(c, handle)
+			storesHandle := func(g *ssa.Function) bool {
+				found := false
+				allInstrs(g, func(in ssa.Instruction) {
+					if st, ok := in.(*ssa.Store); ok {
+						if fa, ok := st.Addr.(*ssa.FieldAddr); ok && fieldOfAddr(fa) == hF {
+							found = true
+						}
+					}
+				})
+				return found
+			}
+			cfg := &PathCfg{
+				// helpers that close / reopen the handle (closeReadFile()) are expanded in place
+				Inline: func(g *ssa.Function) bool { return fnPkg(g) == pkg.Types && g != fn && storesHandle(g) },
+				Classify: func(in ssa.Instruction) []string {
+					if x, ok := incStore(in); ok && x == num {
+						return []string{"inc"}
+					}
+					if st, ok := in.(*ssa.Store); ok {
+						if fa, ok := st.Addr.(*ssa.FieldAddr); ok && fieldOfAddr(fa) == hF {
+							if k, ok := st.Val.(*ssa.Const); ok && k.IsNil() {
+								return []string{"h:nil"}
+							}
+							return []string{"h:open"}
+						}
+					}
+					return nil
+				},
+				Branch: func(ifi *ssa.If, cond ssa.Value, taken bool) []string {
+					cnd, neg := negStrip(cond)
+					bo, ok := cnd.(*ssa.BinOp)
+					if !ok || (bo.Op != token.EQL && bo.Op != token.NEQ) {
+						return nil
+					}
+					var x ssa.Value
+					if k, ok := bo.Y.(*ssa.Const); ok && k.IsNil() {
+						x = bo.X
+					} else if k, ok := bo.X.(*ssa.Const); ok && k.IsNil() {
+						x = bo.Y
+					}
+					if x == nil || !isFieldLoad(x, hF) {
+						return nil
+					}
+					isNil := (bo.Op == token.EQL) == (taken != neg)
+					if isNil {
+						return []string{"h:nil"}
+					}
+					return []string{"h:open"}
+				},
+			}
+			paths, trunc := EnumPaths(fn, nil, cfg)
+			key := fmt.Sprintf("nsqd.%s: %s++ leaves %s nil", fn.Name(), num, handle)
+			if trunc || len(paths) == 0 {
+				c.Undecided(key, c.At(at), "path enumeration incomplete")
+				continue
+			}
+			bad := ""
+			for i := range paths {
+				pa := &paths[i]
+				if !pa.Has("inc") || pa.End != "return" {
+					continue
+				}
+				last := ""
+				for _, e := range pa.Events {
+					if strings.HasPrefix(e.Class, "h:") {
+						last = e.Class
+					}
+				}
+				if last != "h:nil" {
+					bad = fmt.Sprintf("%s is advanced but the open %s handle is kept: the next operation continues on the old segment file while the cursor says (new segment, position 0) — records are read twice / skipped or written into the wrong file: %s", num, handle, pa.String())
+				}
+			}
+			c.Judge(bad == "", key, c.At(at), fmt.Sprintf("%d paths: the handle is closed and forgotten on every path that moves to the next segment", len(paths)), bad)
+		}
+	}
+	if n == 0 {
+		anchorFail("nsqd: no increment of nextReadFileNum / writeFileNum found")
+	}
+}
+
+// incStore: in is `d.<field> = d.<field> + 1` (d.field++); returns the field name.
+func incStore(in ssa.Instruction) (string, bool) {
+	st, ok := in.(*ssa.Store)
+	if !ok {
+		return "", false
+	}
+	fa, ok := st.Addr.(*ssa.FieldAddr)
+	if !ok {
+		return "", false
+	}
+	bo, ok := st.Val.(*ssa.BinOp)
+	if !ok || bo.Op != token.ADD {
+		return "", false
+	}
+	f := fieldOfAddr(fa)
+	if k, ok := constInt(bo.Y); ok && k == 1 && isFieldLoad(bo.X, f) {
+		return f.Name(), true
+	}
+	return "", false
+}
+
+func c09r7(c *Check) {
+	pkg := c.P.Pkg("nsqd")
+	perFn := map[*ssa.Function]int{}
+	forbidden := map[string]int64{"O_TRUNC": int64(os.O_TRUNC), "O_APPEND": int64(os.O_APPEND), "O_EXCL": int64(os.O_EXCL)}
+	n := 0
+	for _, fn := range c.P.Funcs {
+		if fnPkg(fn) != pkg.Types {
+			continue
+		}
+		allInstrs(fn, func(in ssa.Instruction) {
+			call, ok := in.(*ssa.Call)
+			if !ok || calleeName(call.Common()) != "os.OpenFile" {
+				return
+			}
+			n++
+			perFn[fn]++
+			key := fmt.Sprintf("nsqd.%s os.OpenFile#%d flags", fn.Name(), perFn[fn])
+			var leaves []ssa.Value
+			seen := map[ssa.Value]bool{}
+			var walk func(v ssa.Value)
+			walk = func(v ssa.Value) {
+				if seen[v] {
+					return
+				}
+				seen[v] = true
+				switch x := v.(type) {
+				case *ssa.Phi:
+					for _, e := range x.Edges {
+						walk(e)
+					}
+				case *ssa.BinOp:
+					if x.Op == token.OR {
+						walk(x.X)
+						walk(x.Y)
+						return
+					}
+					leaves = append(leaves, v)
+				default:
+					leaves = append(leaves, v)
+				}
+			}
+			walk(call.Call.Args[1])
+			bad := ""
+			for _, l := range leaves {
+				k, ok := constInt(l)
+				if !ok {
+					bad = "the open flags are not a compile-time set of constants (" + describeVal(l) + "): whether an existing segment is truncated depends on run-time state"
+					continue
+				}
+				for name, bit := range forbidden {
+					if k&bit != 0 {
+						bad = "a queue file can be opened with " + name + ": records written before a restart (or still unread in the segment) are destroyed / the persisted position no longer addresses them"
+					}
+				}
+			}
+			c.Judge(bad == "", key, c.At(in), "constant flags without O_TRUNC/O_APPEND/O_EXCL", bad)
+		})
+	}
+	if n == 0 {
+		anchorFail("nsqd: no os.OpenFile call")
+	}
 }
